@@ -75,9 +75,13 @@ func chance(t *rapid.T, tenths int, label string) bool {
 
 func pickInt(t *rapid.T, label string, vals ...int) int { return vals[uniform(t, len(vals), label)] }
 
-func pickF(t *rapid.T, label string, vals ...float64) float64 { return vals[uniform(t, len(vals), label)] }
+func pickF(t *rapid.T, label string, vals ...float64) float64 {
+	return vals[uniform(t, len(vals), label)]
+}
 
-func pickS(t *rapid.T, label string, vals ...string) string { return vals[uniform(t, len(vals), label)] }
+func pickS(t *rapid.T, label string, vals ...string) string {
+	return vals[uniform(t, len(vals), label)]
+}
 
 // between draws uniformly from [lo,hi].
 func between(t *rapid.T, lo, hi int, label string) int { return lo + uniform(t, hi-lo+1, label) }
